@@ -457,39 +457,53 @@ def cursor_witness(ctx):
     a Text / Timezone token; match_operator consumes the operator it matched"""
     b = ctx.facts.one(r'^syntax::primative::PrimativeParser::parse_basic_primatives$')
     ctx.fn(b)
-    consumes = [bid for bid, t in b.calls(r'SyntaxParser::<.*>::consume_token$|SyntaxParser::consume_token$')]
-    bad = []
+    consumes = {bid for bid, t in b.calls(r'SyntaxParser::<.*>::consume_token$|SyntaxParser::consume_token$')}
+    if b.loops():
+        raise AnchorLost('parse_basic_primatives contains a loop')
+    adt = ctx.facts.adts.get('types::SmartCalcAstType')
+    if not adt:
+        raise AnchorLost('enum types::SmartCalcAstType not found')
+    vd = {v['name']: v['discr'] for v in adt['variants']}
+
+    def dead(bid):
+        """a block is dead when a decision that dominates it tests the variant of a value none of whose definitions builds it"""
+        for (_, d, v) in b.conditions(bid):
+            if d[0] != 'discr':
+                continue
+            alts = alternatives(b, d[1])
+            ds = []
+            for a, _c in alts:
+                sa = strip(a)
+                if sa[0] == 'aggr' and sa[1].startswith('types::SmartCalcAstType::') and sa[1].rsplit('::', 1)[1] in vd:
+                    ds.append(vd[sa[1].rsplit('::', 1)[1]])
+                elif sa[0] == 'aggr' and sa[1].startswith('core::result::Result::'):
+                    ds.append({'Ok': 0, 'Err': 1}[sa[1].rsplit('::', 1)[1]])
+                else:
+                    ds = None
+                    break
+            if ds and not any((x not in v[1]) if isinstance(v, tuple) else (x in v) for x in ds):
+                return True
+        return False
+    rets = [i for i in b.normal_blocks if b.blocks[i]['term']['k'] == 'return']
+    live_bad = []
     n = 0
-    for (bid, kind, x) in b.defs().get(0, []):
-        if kind != 'stmt' or x['rv'] != 'aggr' or x['adt'] != 'core::result::Result::Ok':
-            continue
-        inner = b.expr(x['ops'][0])
-        for a, conds in alternatives(b, inner):
-            sa = strip(a)
-            if sa[0] == 'aggr' and sa[1] == 'types::SmartCalcAstType::None':
+    for i in b.normal_blocks:
+        for st in b.blocks[i]['stmts']:
+            if st['k'] == 'assign' and st['rv'] == 'aggr' and st['adt'] == 'types::SmartCalcAstType::None':
                 n += 1
-                if not any(b.dominates(c, bid) for c in consumes):
-                    # the arm `Ok(None) => { set_index(backup); Ok(None) }` is fine only if no alternative of `result` is None
-                    bad.append((bid, x['loc'], 'returns Ok(None) without having consumed a token'))
-    # alternatives of the matched `result`: no Ok(None) may flow into the restore arm
-    for l, nme in b.names.items():
-        if nme == 'result':
-            for (bid, kind, x) in b.defs().get(l, []):
-                e = b.def_expr(bid, kind, x, 1, frozenset())
-                for a, conds in alternatives(b, e):
-                    sa = strip(a)
-                    if sa[0] == 'aggr' and sa[1] == 'core::result::Result::Ok':
-                        for a2, c2 in alternatives(b, sa[2][0]):
-                            if strip(a2)[0] == 'aggr' and strip(a2)[1] == 'types::SmartCalcAstType::None':
-                                bad.append((bid, x['loc'], 'an arm yields Ok(None) for a token it did not consume; the cursor is restored and parse_binary retries the same token forever'))
-    live_bad = [x for x in bad if 'an arm yields' in x[2]]
-    # the restore arm itself is dead when no alternative is None
-    restore = [x for x in bad if 'returns Ok(None) without' in x[2]]
+                if dead(i):
+                    continue
+                before = i not in consumes and b.can_reach(0, i, avoid=consumes) if i != 0 else True
+                after = any(r == i or b.can_reach(i, r, avoid=consumes) for r in rets)
+                if before and after and i not in consumes:
+                    live_bad.append((i, st['loc'], 'an empty ast is built and handed back on a path that consumes no token; the cursor stays where it was and parse_binary retries the same token forever'))
+    if not n:
+        raise AnchorLost('parse_basic_primatives builds no empty ast: the retry protocol of parse_binary changed')
     if live_bad:
         for bid, loc, why in live_bad:
             ctx.finding('T1', 'PrimativeParser::parse_basic_primatives/none-without-consume', 'parser cursor protocol: %s' % why, site=loc)
     else:
-        ctx.ok('T1', 'parse_basic_primatives: Ok(None) only after consume_token (the restore arm is dead: no alternative of `result` is None)', 'L-cursor-witness', site=b.loc)
+        ctx.ok('T1', 'parse_basic_primatives: every live path that hands back Ok(None) passes consume_token (%d constructions of the empty ast examined)' % n, 'L-cursor-witness', site=b.loc)
     mo = ctx.facts.one(r"^syntax::SyntaxParser::<'a>::match_operator$")
     some_rets = [bid for (bid, kind, x) in mo.defs().get(0, []) if kind == 'stmt' and x['rv'] == 'aggr' and x['adt'].endswith('Option::Some')]
     cons = [bid for bid, t in mo.calls(r'consume_token$')]
